@@ -349,6 +349,15 @@ impl VtCtx {
 }
 
 pub fn wrap(cx: &mut VtCtx, kind: AdapterKind, span_sel: u16, s: StrSeed, script: &[PollScript]) {
+    // the traced function's span has a fixed name: one per case, further ones are plain in_span
+    let kind = if kind == AdapterKind::TracedBoxed && (cx.case.opts.disabled || cx.case.w().h.adapters.iter().any(|a| a.kind == AdapterKind::TracedBoxed)) {
+        AdapterKind::InSpan
+    } else {
+        kind
+    };
+    if kind == AdapterKind::TracedBoxed {
+        return wrap_traced_boxed(cx, script);
+    }
     let needs_span = !matches!(kind, AdapterKind::EnterOnPoll);
     let (a, name) = {
         let mut w = cx.case.w();
@@ -417,6 +426,7 @@ pub fn wrap(cx: &mut VtCtx, kind: AdapterKind, span_sel: u16, s: StrSeed, script
             ScriptedDuplex(mk(true, None)),
             span.take().unwrap(),
         ))),
+        AdapterKind::TracedBoxed => unreachable!(),
     };
     let mut w = cx.case.w();
     w.adapters.push(Slot::Live(obj));
@@ -437,6 +447,49 @@ pub fn wrap(cx: &mut VtCtx, kind: AdapterKind, span_sel: u16, s: StrSeed, script
     w.h.label("wrap");
 }
 
+fn wrap_traced_boxed(cx: &mut VtCtx, script: &[PollScript]) {
+    let (a, t0) = {
+        let mut w = cx.case.w();
+        let t0 = w.tick();
+        (w.adapters.len(), t0)
+    };
+    let name = "traced-boxed-fn".to_string();
+    let inner = ScriptedFuture(Scripted { adapter: a, script: script.to_vec(), pos: 0, in_span: true, eop: None, held: vec![] });
+    let c0 = cx_now(cx);
+    let Some(fut) = cx.guarded("#[trace] fn returning a boxed future", move |_| crate::exec::traced_boxed(inner)) else { return };
+    let c1 = cx_now(cx);
+    // the model's span: created by the call under the caller's local parent (like
+    // Span::enter_with_local_parent); the real handle lives inside the returned future
+    let mut ms = cx.blank_span(name.clone(), "trace-boxed");
+    let mut w = cx.case.w();
+    match VtCtx::local_token(&w, cx.id) {
+        Some(items) => ms.items = items,
+        None => ms.noop = true,
+    }
+    let t1 = w.tick();
+    ms.create_t = (t0, t1);
+    ms.br.c0 = c0;
+    ms.br.c1 = c1;
+    ms.in_adapter = Some(a);
+    w.h.spans.push(ms);
+    w.spans.push(Slot::Gone);
+    let idx = w.h.spans.len() - 1;
+    w.adapters.push(Slot::Live(AdapterObj::Fut(fut)));
+    let vt = cx.id;
+    w.h.adapters.push(MAdapter {
+        kind: AdapterKind::TracedBoxed,
+        span: Some(idx),
+        name,
+        polls: vec![],
+        done_t: None,
+        dropped_t: None,
+        create_vt: vt,
+        held_finished: vec![],
+    });
+    w.h.label("wrap");
+    w.h.label("traced_fn_returning_boxed_future");
+}
+
 pub fn drive(cx: &mut VtCtx, a_sel: u16, entry: Entry, nested: bool) {
     let a = {
         let mut w = cx.case.w();
@@ -454,7 +507,7 @@ pub fn drive(cx: &mut VtCtx, a_sel: u16, entry: Entry, nested: bool) {
         (w.h.adapters[a].kind, w.h.adapters[a].done_t.is_some())
     };
     // futures must not be polled after completion
-    let is_fut = matches!(kind, AdapterKind::InSpan | AdapterKind::EnterOnPoll | AdapterKind::InSpanEnterOnPoll);
+    let is_fut = matches!(kind, AdapterKind::InSpan | AdapterKind::EnterOnPoll | AdapterKind::InSpanEnterOnPoll | AdapterKind::TracedBoxed);
     if is_fut && done {
         cx.case.w().h.skipped_ops += 1;
         return;
